@@ -291,7 +291,8 @@ Record hstate := mkH {
   h_rules : rules;
   h_limiters : list (N * limiter);     (* key = addr * 16 + handler *)
   h_nodes : list (N * N);              (* addrPool.addrs: addr -> node *)
-  h_next : N                           (* next rate.Limiter generation *)
+  h_next : N;                          (* next rate.Limiter generation *)
+  h_queue : list N                     (* rateLimitAddrsQueue: addresses, oldest first *)
 }.
 
 Definition key (addr h : N) : N := addr * 16 + h.
@@ -301,12 +302,13 @@ Definition key (addr h : N) : N := addr * 16 + h.
 Definition init_rules : rules :=
   mkRules None None None (Some (mkRM (Some 15) [(2, 16)], 0%Z)) (mkRM (Some builtin_rule) []) 0%Z (false, 0, []).
 
-Definition init : hstate := mkH init_rules [] [] 1.
+Definition init : hstate := mkH init_rules [] [] 1 [].
 
 Inductive op :=
 | OReq (addr h cid : N)
 | OAddNode (addr node : N)
 | ORemoveAddr (addr : N)
+| OShrink (maxaddrs : N)
 | OSetClientID (s : option (list (N * rulemap)))
 | OSetNets (s : option (list (N * list N * rulemap)))     (* sequence of Add(ipnet, rulemap) *)
 | OSetNodes (s : option (list (N * rulemap)))
@@ -319,10 +321,15 @@ Definition nets_of_adds (adds : list (N * list N * rulemap)) : netset :=
                          mkNets (ns_ipnets ns ++ [(nid, contained)]) (aset nid rm (ns_rules ns)))
             adds (mkNets [] []).
 
-Definition set_rules (s : hstate) (R : rules) : hstate := mkH R (h_limiters s) (h_nodes s) (h_next s).
+Definition set_rules (s : hstate) (R : rules) : hstate := mkH R (h_limiters s) (h_nodes s) (h_next s) (h_queue s).
 
 (* observable result of an op: for a request the limiter used; for AddNode / RemoveAddr the returned bool *)
-Inductive out := OutLim (l : limiter) | OutBool (b : bool) | OutNone.
+Inductive out := OutLim (l : limiter) | OutBool (b : bool) | OutCount (n : N) | OutNone.
+
+(* addrPool.remove(addr): limiters, node identity and queue entry of the address are dropped *)
+Definition remove_addr (s : hstate) (addr : N) : hstate :=
+  mkH (h_rules s) (filter (fun p => negb (fst p / 16 =? addr)) (h_limiters s)) (aremove addr (h_nodes s))
+      (h_next s) (filter (fun a => negb (a =? addr)) (h_queue s)).
 
 Definition step (s : hstate) (o : op) (now : Z) : hstate * out :=
   let R := h_rules s in
@@ -331,18 +338,25 @@ Definition step (s : hstate) (o : op) (now : Z) : hstate * out :=
       (* addrPool.rateLimiter: hint.Node from the pool's addrs *)
       let node := aget addr (h_nodes s) in
       let '(l, next) := Rule R addr h cid node (aget (key addr h) (h_limiters s)) now (h_next s) in
-      (mkH R (aset (key addr h) l (h_limiters s)) (h_nodes s) next, OutLim l)
+      (* `if i.Len() < 1 { p.addrsQueue.Add(addr) }`: a new address goes to the back of the queue *)
+      let known := existsb (fun p => fst p / 16 =? addr) (h_limiters s) in
+      let q := if known then h_queue s else filter (fun a => negb (a =? addr)) (h_queue s) ++ [addr] in
+      (mkH R (aset (key addr h) l (h_limiters s)) (h_nodes s) next q, OutLim l)
   | OAddNode addr node =>
       (* addNode: only when the addr has limiters, and only the first node *)
       let known := existsb (fun p => fst p / 16 =? addr) (h_limiters s) in
       match known, aget addr (h_nodes s) with
-      | true, None => (mkH R (h_limiters s) (aset addr node (h_nodes s)) (h_next s), OutBool true)
+      | true, None => (mkH R (h_limiters s) (aset addr node (h_nodes s)) (h_next s) (h_queue s), OutBool true)
       | _, _ => (s, OutBool false)
       end
   | ORemoveAddr addr =>
       let known := existsb (fun p => fst p / 16 =? addr) (h_limiters s) in
-      (mkH R (filter (fun p => negb (fst p / 16 =? addr)) (h_limiters s)) (aremove addr (h_nodes s)) (h_next s),
-       OutBool known)
+      (remove_addr s addr, OutBool known)
+  | OShrink maxaddrs =>
+      (* addrPool.shrink: nothing expires within a history; shrinkAddrsQueue pops the oldest addresses while
+         the queue is longer than MaxAddrs and removes each (limiters, node identity) *)
+      let n := (length (h_queue s) - N.to_nat maxaddrs)%nat in
+      (fold_left remove_addr (firstn n (h_queue s)) s, OutCount (N.of_nat n))
   | OSetClientID x =>
       (set_rules s (mkRules (match x with Some m => Some (m, now) | None => None end)
                             (r_nets R) (r_nodes R) (r_suffrage R) (r_defaultmap R) (r_defaultmap_at R) (r_cons R)),
@@ -374,6 +388,7 @@ Definition obs_of (o : out) : list N :=
   match o with
   | OutLim l => let d := l_dec l in [d_type d; d_rule d; fst (d_desc d); snd (d_desc d); d_checksum d; l_gen l]
   | OutBool b => [if b then 1 else 0]
+  | OutCount n => [n]
   | OutNone => []
   end.
 
